@@ -135,7 +135,7 @@ func (c *Ctx) errSitesOf(fi *load.FuncInfo) []errSite {
 				if e.Cond == nil {
 					return false
 				}
-				for _, f := range cfgx.ExpandCond(e.Cond, e.Val) {
+				for _, f := range e.Facts() {
 					x, isNil, ok := nilCompare(info, f)
 					if ok && isNil {
 						if xid, ok := ast.Unparen(x).(*ast.Ident); ok && astx.Obj(info, xid) == obj {
